@@ -149,6 +149,33 @@ theorem signFile_frame (C : CryptoFns) (fs g : FS) (name other : PStr) (seed : B
     · exact write_frame fs g name other _ h hne
     · cases h
 
+-- ---------------------------------------------------------------------------------------------------------------------
+-- member order is no part of a value
+
+/-- **the order in which the members of any object were inserted — at any depth, in either argument — never matters to a verdict**: two presentations of the
+same JSON values (equal after key-sorting) get the same answer from `verify_signable`, `verify_delegation`, `verify_root` and the checker.  (In particular a
+trusted delegation spelled `{"threshold": …, "pubkeys": …}` is the delegation spelled the other way round.) -/
+theorem member_order_irrelevant (C : CryptoFns) (name : PStr) (u u' t t' keys thr : J) (gpg : Bool)
+    (hu : u.WF) (hu' : u'.WF) (ht : t.WF) (ht' : t'.WF) (eu : canon u = canon u') (et : canon t = canon t') :
+    verifySignableJ C u keys thr gpg = verifySignableJ C u' keys thr gpg ∧
+    verifyDelegationJ C name u t gpg = verifyDelegationJ C name u' t' gpg ∧
+    verifyRootJ C t u = verifyRootJ C t' u' ∧
+    checkDelegatingMdJ t = checkDelegatingMdJ t' := by
+  refine ⟨?_, ?_, ?_, ?_⟩
+  · rw [← verifySignable_canon C u keys thr gpg hu, ← verifySignable_canon C u' keys thr gpg hu', eu]
+  · rw [← verifyDelegation_canon C name u t gpg hu ht, ← verifyDelegation_canon C name u' t' gpg hu' ht', eu, et]
+  · rw [← verifyRoot_canon C t u ht hu, ← verifyRoot_canon C t' u' ht' hu', eu, et]
+  · rw [checkDelegatingMd_eq, checkDelegatingMd_eq]
+    have : Schema t ↔ Schema t' := by rw [← schema_canon t ht, ← schema_canon t' ht', et]
+    by_cases h : Schema t
+    · simp [h, this.mp h]
+    · have h' : ¬ Schema t' := fun x => h (this.mpr x)
+      simp [h, h']
+
+-- the hypothesis is met by the two spellings of a delegation
+example : ser (canon (.obj [(ps! "threshold", .int 1), (ps! "pubkeys", .arr [])])) = ser (canon (.obj [(ps! "pubkeys", .arr []), (ps! "threshold", .int 1)])) := by
+  decide +kernel
+
 /-- **every value loaded from a strict-UTF-8 file is a well-formed JSON value** — so the well-formedness hypothesis of the theorems of this
 file (and of C04, C07) holds for everything that `load_metadata_from_file` returned for such a file -/
 theorem loaded_is_wf (b : Bytes) (v : J) (hb : NoSurLead b) (h : loadBytes b = some v) : v.WF := load_wf hb h
